@@ -2,16 +2,18 @@
  * C16 — ext2fs_mem_is_zero (lib/ext2fs/gen_bitmap.c), the byte scan under ba_test_clear_bmap_extent and
  * ext2fs_test_clear_generic_bitmap_range.
  *
- * Contract (from its documentation "Return 1 if @mem is zeroed memory, otherwise return 0"):
+ * Contract (specs/c16_ba_mem_is_zero.h, from its documentation "Return 1 if @mem is zeroed memory, otherwise
+ * return 0"):
  *   returns 1 or 0;
  *   returns 1  =>  every byte of mem[0..len) is 0        (stated for the ghost byte address verif_p1)
- *   returns 0  =>  some byte of mem[0..len) is not 0     (existential: proved as its contrapositive by the second
- *                  half of the harness, which runs the function on an all-zero buffer (calloc) of arbitrary
- *                  length/alignment and demands the answer 1)
+ *   returns 0  =>  some byte of mem[0..len) is not 0     (witness address in the ghost verif_p2, produced by the
+ *                  memcmp model: Skolem form of "memcmp != 0 => a differing byte exists")
  *   reads only mem[0..len) (bounds checks on; the buffer is allocated with exactly len bytes after the
- *   misalignment prefix), writes nothing but its verifier ghosts.
- * The 256-byte chunk loop carries an in-place loop contract; libc memcmp is replaced by the pointwise model in
- * specs/c16_memcmp_model.h.
+ *   misalignment prefix), writes nothing but the ghost verif_p2.
+ * The 256-byte chunk loop carries an in-place loop contract (hooks-pending/ba.diff; it uses __CPROVER_loop_entry for
+ * the entry values of mem and len); libc memcmp is replaced by the pointwise model in specs/c16_ba_memcmp.h.
+ * The harness additionally runs the function on an all-zero buffer (calloc) of arbitrary length/alignment and demands
+ * the answer 1 (the contrapositive of the second implication, proved without the witness).
  */
 /* VERIF-UNIT
 {
@@ -23,8 +25,9 @@
  "enforce": ["ext2fs_mem_is_zero"],
  "loop_contracts": true,
  "functions": ["lib/ext2fs/gen_bitmap.c:ext2fs_mem_is_zero"],
- "assumes": ["buffer length capped at 2^17 bytes (object-size cap); length, content and the 8 byte-misalignments otherwise symbolic",
-             "libc memcmp replaced by its C11 semantics stated pointwise (specs/c16_memcmp_model.h): result 0 => equal at the ghost byte, result != 0 => a differing byte exists"],
+ "assumes": ["buffer length capped at 2^17 bytes (object-size cap; the chunk loop is closed by its loop contract, nothing depends on the cap); length, content and the 8 byte-misalignments otherwise symbolic",
+             "libc memcmp replaced by its C11 semantics stated pointwise (specs/c16_ba_memcmp.h): result 0 => equal at the ghost byte, result != 0 => a differing byte exists (its address published in a ghost)",
+             "needs the in-place loop contract of hooks-pending/ba.diff (gen_bitmap.c)"],
  "native": true
 }
 */
@@ -39,20 +42,12 @@ struct in_miz IN;
 #include "verif_in.h"
 
 unsigned long long verif_k;	/* unused here */
-unsigned long long verif_g0;	/* ghost: len on entry of ext2fs_mem_is_zero */
-const unsigned char *verif_p0;	/* ghost: mem on entry of ext2fs_mem_is_zero */
 const unsigned char *verif_p1;	/* ghost: address of one arbitrary byte */
+const unsigned char *verif_p2;	/* ghost: witness published by the memcmp model */
 
-#include "c16_memcmp_model.h"
+#include "c16_ba_memcmp.h"
+#include "c16_ba_mem_is_zero.h"
 #include "lib/ext2fs/gen_bitmap.c"
-
-#define GHOST_IN(mem, len) (__CPROVER_same_object(verif_p1, (mem)) && verif_p1 >= (const unsigned char *)(mem) && \
-			    verif_p1 < (const unsigned char *)(mem) + (len))
-
-int ext2fs_mem_is_zero(const char *mem, size_t len)
-	ENSURES(RET == 0 || RET == 1)
-	ENSURES(RET == 0 || !GHOST_IN(mem, len) || *verif_p1 == 0)
-	ASSIGNS(verif_p0, verif_g0);
 
 #define MIZ_MAX (1ULL << 17)
 
@@ -69,12 +64,17 @@ void h_mem_is_zero(void)
 #endif
 	char *mem = raw + IN.misalign;
 	verif_p1 = (const unsigned char *)mem + IN.k;
+	verif_p2 = 0;
 	int r = ext2fs_mem_is_zero(mem, IN.len);
 	CHECK(r == 0 || r == 1, "mem_is_zero: returns 0 or 1");
 	if (r) {
 		CHECK(IN.len == 0 || mem[IN.k] == 0, "mem_is_zero: answer 1 only if every byte is zero");
 		REACH("one");
 	} else {
+#ifndef VERIF_NATIVE
+		CHECK(verif_p2 >= (const unsigned char *)mem && verif_p2 < (const unsigned char *)mem + IN.len && *verif_p2 != 0,
+		      "mem_is_zero: answer 0 only if a non-zero byte exists (witness)");
+#endif
 		REACH("zero");
 	}
 	if (IN.zero) {
